@@ -899,6 +899,22 @@ def execute(prog, probe=None, wall=60, faults=(), sample=False, observe=None, ho
     from .probe import run_probed, Probe
     sys.unraisablehook = _unraisable      # GC-time noise of abandoned coroutines: counted only
     warnings.simplefilter('ignore')
+    # every `raise` step stands for one exception object: a program that names one twice is not a program of the DSL
+    # (only shrinking produces these; found out *inside* the simulation it would look like a failure of the activity)
+    seen_eids = set()
+
+    def _eids(node):
+        if isinstance(node, dict):
+            if node.get('op') == 'raise' and 'eid' in node:
+                if node['eid'] in seen_eids:
+                    raise InvalidCase('duplicate eid %r' % (node['eid'],))
+                seen_eids.add(node['eid'])
+            for v in node.values():
+                _eids(v)
+        elif isinstance(node, list):
+            for v in node:
+                _eids(v)
+    _eids(prog.get('roots'))
     it = Interp(prog, shared=(hooks or {}).get('shared_objs'))
     if hooks:
         it.hooks = hooks
